@@ -1,6 +1,7 @@
 (* Comparator for the C19 correspondence (tie K): each case carries an abstract response (or a
    chunk list) and what the implementation did; the checker says whether the model agrees. *)
 From PK Require Export Base.Bytes Client.Client Client.Framing Client.EndToEnd.
+From PK Require Client.Request.
 From Coq Require Import ZArith List Bool.
 Import ListNotations.
 Open Scope Z_scope.
@@ -61,6 +62,8 @@ Inductive ccase :=
 | CPie (o : op) (r : resp) (obs : outcome)          (* ProxyKmipClient.<o> on response r did obs *)
 | CProxy (o : op) (r : resp) (obs : pout)           (* KMIPProxy.<o> on response r did obs *)
 | CRead (chunks : list bytes) (obs : fres)          (* KMIPProtocol.read on this transport did obs *)
+| CReq (v : Request.kver) (opc : Z) (body : bytes) (emitted : bytes)
+   (* the client emitted `emitted` for operation opc under version v; `body` is the request payload's body *)
 | CCall (o : op) (chunks : list bytes) (frame : bytes) (r : resp) (obs : outcome).
    (* ProxyKmipClient.<o> did obs when the transport delivered `chunks`; the real decoder maps `frame` to r *)
 
@@ -69,6 +72,13 @@ Definition check_ccase (c : ccase) : bool :=
   | CPie o r obs => outcome_eqb (interpret o r) obs
   | CProxy o r obs => pout_eqb (proxy_call o r) obs
   | CRead chunks obs => fres_eqb (read chunks) obs
+  | CReq v opc body emitted =>
+      match Request.enc_request v opc body, Request.dec_request (fun _ => true) emitted with
+      | Some bs, Some (pv, opc', body') =>
+          bytes_eqb bs emitted && (fst pv =? fst (Request.version_pair v)) && (snd pv =? snd (Request.version_pair v)) &&
+          (opc' =? opc) && bytes_eqb body' body
+      | _, _ => false
+      end
   | CCall o chunks frame r obs =>
       outcome_eqb (client_call (fun f => if bytes_eqb f frame then r else Undecodable) o chunks) obs
   end.
